@@ -19,6 +19,9 @@ def specs_for(ctx):
         dict(D=2, target="plateau", box="sym", noise="det", options=dict(max_fun_evals=120, accelerate_mesh=True, accelerate_mesh_steps=1), seed=ctx.seed * 10 + 2),
         dict(D=2, target="rosen", box="sym", noise="det", options=dict(max_fun_evals=150, complete_poll=True, accelerate_mesh=False), seed=ctx.seed * 10 + 3),
         dict(D=2, target="sphere", box="sym", noise="declared", sigma=0.2, options=dict(max_fun_evals=120, tol_mesh=1e-3), seed=ctx.seed * 10 + 4),
+        # tol_mesh an exact power of two (snapping to the grid is the identity) and a tiny tol_fun so that the mesh rule is what stops the run
+        dict(D=2, target="sphere", box="sym", noise="det", options=dict(max_fun_evals=200, tol_mesh=2.0 ** -6, tol_fun=1e-12, accelerate_mesh=False), seed=ctx.seed * 10 + 5),
+        dict(D=1, target="abs", box="sym", noise="det", options=dict(max_fun_evals=120, tol_mesh=0.25, tol_fun=1e-12), seed=ctx.seed * 10 + 6),
     ]
     return specs + extra + S.panel_nondefault(ctx.seed)
 
